@@ -364,3 +364,32 @@ def ms(grid, hand):
         return repr(o) + ':' + str(o.color) + (':' + key(o.content) if isinstance(o, Box) else '')
     objs = [grid[p] for p in grid.area.positions()] + [hand]
     return sorted(key(o) for o in objs if not isinstance(o, Floor) and not isinstance(o, NoneGridObject))
+
+
+# ------------------------------------------------------------------ fast_copy (pickle round trip: outside the symbolic
+# verifier; evaluated natively only = bounded stand-in for the assumption the C03 proofs use)
+def twin(state):
+    """a state that `==` cannot tell from `state` but that differs inside its boxes"""
+    from gym_gridverse.agent import Agent
+    from gym_gridverse.grid import Grid
+    from gym_gridverse.state import State
+    def alt(o):
+        return Box(Key(Color.RED) if not isinstance(o.content, Key) else Floor()) if isinstance(o, Box) else o
+    g = Grid([[alt(state.grid[Position(y, x)]) for x in range(state.grid.shape.width)]
+              for y in range(state.grid.shape.height)])
+    return State(g, Agent(state.agent.position, state.agent.orientation, alt(state.agent.grid_object)))
+
+
+@contract(target='gym_gridverse.utils.fast_copy:fast_copy', args={'x': 'State'}, props=['C03'], bounded=True)
+def fast_copy_is_a_deep_copy(x):
+    from gym_gridverse.utils.fast_copy import fast_copy
+    x0 = old(x)
+    warm = old(fast_copy(twin(x)))      # an earlier copy of a look-alike state (cache history)
+    ensures('total', lambda: returned())
+    ensures('structurally-equal-including-box-contents', lambda: same(result(), x0) and result() == x0
+            and hash(result().grid) == hash(x0.grid) and hash(result().agent) == hash(x0.agent))
+    ensures('shares-no-mutable-component', lambda: result() is not x and result().grid is not x.grid
+            and result().agent is not x.agent and result().grid.objects is not x.grid.objects
+            and all(a is not b for a, b in zip(result().grid.objects, x.grid.objects))
+            and result().agent.transform is not x.agent.transform)
+    ensures('input-untouched', lambda: same(x, x0))
